@@ -302,6 +302,16 @@ package gomavlib
 //@              n.terminate != nil && n.chNewChannel != nil && n.chCloseChannel != nil && n.chWriteTo != nil && n.chWriteAll != nil && n.chWriteExcept != nil
 //@   ensures  [write-requests-are-handed-over-not-queued] err == nil ==> chanCap(n.chWriteTo) == 0 && chanCap(n.chWriteAll) == 0 &&
 //@              chanCap(n.chWriteExcept) == 0 && chanCap(n.chNewChannel) == 0 && chanCap(n.chCloseChannel) == 0
+//@   ensures  [skipped-modules-never-run] err == nil ==>
+//@              ((logRetErr(logFind("(*gomavlib.nodeHeartbeat).initialize", "", 0)) != nil) == (n.nodeHeartbeat == nil)) &&
+//@              ((logRetErr(logFind("(*gomavlib.nodeStreamRequest).initialize", "", 0)) != nil) == (n.nodeStreamRequest == nil))
+//@   ensures  [ready-heartbeat-module-is-started] err == nil && logRetErr(logFind("(*gomavlib.nodeHeartbeat).initialize", "", 0)) == nil ==>
+//@              logGo(logFind("(*gomavlib.nodeStreamRequest).initialize", "", 0)+1, "(*gomavlib.nodeHeartbeat).run")
+//@   ensures  [skipped-heartbeat-module-is-not-started] err == nil && logRetErr(logFind("(*gomavlib.nodeHeartbeat).initialize", "", 0)) != nil ==>
+//@              !logGo(logFind("(*gomavlib.nodeStreamRequest).initialize", "", 0)+1, "(*gomavlib.nodeHeartbeat).run")
+//@   ensures  [module-failure-other-than-skip-is-returned] logFind("(*gomavlib.nodeHeartbeat).initialize", "", 0) >= 0 &&
+//@              logRetErr(logFind("(*gomavlib.nodeHeartbeat).initialize", "", 0)) != nil &&
+//@              logRetErr(logFind("(*gomavlib.nodeHeartbeat).initialize", "", 0)) != errSkip ==> err != nil
 //@   ensures  [node-loop-started-last] err == nil ==> logGo(logLen()-1, "(*gomavlib.Node).run")
 //@   canary   err != nil
 //@   canary   err == nil
@@ -428,3 +438,76 @@ package gomavlib
 //@   requires cp != nil && cp.endpoint != nil && cp.terminate != nil
 //@   ensures  [terminate-then-close-the-endpoint] logLen() == 2 && logIs(0, "close", "terminate") && logCallee(1, "gomavlib.Endpoint.close")
 //@   modifies ghost:log
+
+// ---------------------------------------------------------------- heartbeat / stream-request modules: when they run (C16)
+
+//@ func (*nodeHeartbeat).initialize$1 captures (h *nodeHeartbeat) returns (m)
+//@   requires h != nil && h.node != nil && h.node.Dialect != nil
+//@   requires forall j int :: 0 <= j && j < len(h.node.Dialect.Messages) ==> h.node.Dialect.Messages[j] != nil && !dynIs(h.node.Dialect.Messages[j], "*message.MessageRaw")
+//@   ensures  [none-found] m == nil ==> (forall j int :: 0 <= j && j < len(h.node.Dialect.Messages) ==> h.node.Dialect.Messages[j].GetID() != 0)
+//@   ensures  [found-is-the-heartbeat-of-the-dialect] m != nil ==> m.GetID() == 0 &&
+//@              (exists j int :: 0 <= j && j < len(h.node.Dialect.Messages) && h.node.Dialect.Messages[j] == m)
+//@   modifies nothing
+//@   loop 0 bind i int = rangeindex
+//@   loop 0 invariant -1 <= i && i < len(h.node.Dialect.Messages)
+//@   loop 0 invariant forall j int :: 0 <= j && j <= i ==> h.node.Dialect.Messages[j].GetID() != 0
+
+//@ func (*nodeHeartbeat).initialize
+//@   ghostlog (*message.ReadWriter).Initialize+contract, (*message.ReadWriter).CRCExtra+contract
+//@   requires h != nil && h.node != nil
+//@   requires h.node.Dialect != nil ==> (forall j int :: 0 <= j && j < len(h.node.Dialect.Messages) ==> h.node.Dialect.Messages[j] != nil && !dynIs(h.node.Dialect.Messages[j], "*message.MessageRaw"))
+//@   ensures  [runs-or-is-skipped] err == nil || err == errSkip
+//@   ensures  [disabled-means-skipped] h.node.HeartbeatDisable ==> err == errSkip
+//@   ensures  [no-dialect-means-skipped] h.node.Dialect == nil ==> err == errSkip
+//@   ensures  [no-standard-heartbeat-means-skipped] h.node.Dialect != nil &&
+//@              (forall j int :: 0 <= j && j < len(h.node.Dialect.Messages) ==> h.node.Dialect.Messages[j].GetID() != 0) ==> err == errSkip
+//@   ensures  [running-module-has-the-dialect-heartbeat] err == nil ==> h.msgHeartbeat != nil && h.msgHeartbeat.GetID() == 0 &&
+//@              h.terminate != nil && h.done != nil && !h.node.HeartbeatDisable && h.node.Dialect != nil
+//@   ensures  [codec-of-the-heartbeat-initialised-once] err == nil ==> logLen() == 2 && logCallee(0, "(*message.ReadWriter).Initialize") && logCallee(1, "(*message.ReadWriter).CRCExtra")
+//@   ensures  [codec-error-means-skipped] err == nil ==> logRetErr(0) == nil
+//@   ensures  [only-the-standard-heartbeat-crc-50] err == nil ==> byte(logRetInt(1, 0)) == 50
+//@   canary   err == nil
+//@   modifies *h, ghost:log
+
+//@ func (*nodeStreamRequest).initialize$1 captures (sr *nodeStreamRequest) returns (m)
+//@   requires sr != nil && sr.node != nil && sr.node.Dialect != nil
+//@   requires forall j int :: 0 <= j && j < len(sr.node.Dialect.Messages) ==> sr.node.Dialect.Messages[j] != nil && !dynIs(sr.node.Dialect.Messages[j], "*message.MessageRaw")
+//@   ensures  [none-found] m == nil ==> (forall j int :: 0 <= j && j < len(sr.node.Dialect.Messages) ==> sr.node.Dialect.Messages[j].GetID() != 0)
+//@   ensures  [found-is-the-heartbeat-of-the-dialect] m != nil ==> m.GetID() == 0 &&
+//@              (exists j int :: 0 <= j && j < len(sr.node.Dialect.Messages) && sr.node.Dialect.Messages[j] == m)
+//@   modifies nothing
+//@   loop 0 bind i int = rangeindex
+//@   loop 0 invariant -1 <= i && i < len(sr.node.Dialect.Messages)
+//@   loop 0 invariant forall j int :: 0 <= j && j <= i ==> sr.node.Dialect.Messages[j].GetID() != 0
+
+//@ func (*nodeStreamRequest).initialize$2 captures (sr *nodeStreamRequest) returns (m)
+//@   requires sr != nil && sr.node != nil && sr.node.Dialect != nil
+//@   requires forall j int :: 0 <= j && j < len(sr.node.Dialect.Messages) ==> sr.node.Dialect.Messages[j] != nil && !dynIs(sr.node.Dialect.Messages[j], "*message.MessageRaw")
+//@   ensures  [none-found] m == nil ==> (forall j int :: 0 <= j && j < len(sr.node.Dialect.Messages) ==> sr.node.Dialect.Messages[j].GetID() != 66)
+//@   ensures  [found-is-the-request-data-stream-of-the-dialect] m != nil ==> m.GetID() == 66 &&
+//@              (exists j int :: 0 <= j && j < len(sr.node.Dialect.Messages) && sr.node.Dialect.Messages[j] == m)
+//@   modifies nothing
+//@   loop 0 bind i int = rangeindex
+//@   loop 0 invariant -1 <= i && i < len(sr.node.Dialect.Messages)
+//@   loop 0 invariant forall j int :: 0 <= j && j <= i ==> sr.node.Dialect.Messages[j].GetID() != 66
+
+//@ func (*nodeStreamRequest).initialize
+//@   ghostlog (*message.ReadWriter).Initialize+contract, (*message.ReadWriter).CRCExtra+contract
+//@   requires sr != nil && sr.node != nil
+//@   requires sr.node.Dialect != nil ==> (forall j int :: 0 <= j && j < len(sr.node.Dialect.Messages) ==> sr.node.Dialect.Messages[j] != nil && !dynIs(sr.node.Dialect.Messages[j], "*message.MessageRaw"))
+//@   ensures  [runs-or-is-skipped] err == nil || err == errSkip
+//@   ensures  [not-enabled-means-skipped] !sr.node.StreamRequestEnable ==> err == errSkip
+//@   ensures  [no-dialect-means-skipped] sr.node.Dialect == nil ==> err == errSkip
+//@   ensures  [no-standard-heartbeat-means-skipped] sr.node.Dialect != nil &&
+//@              (forall j int :: 0 <= j && j < len(sr.node.Dialect.Messages) ==> sr.node.Dialect.Messages[j].GetID() != 0) ==> err == errSkip
+//@   ensures  [no-request-data-stream-means-skipped] sr.node.Dialect != nil &&
+//@              (forall j int :: 0 <= j && j < len(sr.node.Dialect.Messages) ==> sr.node.Dialect.Messages[j].GetID() != 66) ==> err == errSkip
+//@   ensures  [running-module-is-ready] err == nil ==> sr.msgHeartbeat != nil && sr.msgHeartbeat.GetID() == 0 &&
+//@              sr.msgRequestDataStream != nil && sr.msgRequestDataStream.GetID() == 66 && sr.lastRequests != nil &&
+//@              sr.terminate != nil && sr.done != nil && sr.node.StreamRequestEnable && sr.node.Dialect != nil
+//@   ensures  [both-codecs-initialised-without-error] err == nil ==> logLen() == 4 && logCallee(0, "(*message.ReadWriter).Initialize") && logRetErr(0) == nil &&
+//@              logCallee(2, "(*message.ReadWriter).Initialize") && logRetErr(2) == nil
+//@   ensures  [only-the-standard-messages-crc-50-and-148] err == nil ==> logCallee(1, "(*message.ReadWriter).CRCExtra") && byte(logRetInt(1, 0)) == 50 &&
+//@              logCallee(3, "(*message.ReadWriter).CRCExtra") && byte(logRetInt(3, 0)) == 148
+//@   canary   err == nil
+//@   modifies *sr, ghost:log
